@@ -408,6 +408,43 @@ impl Item for EntityId {
     }
 }
 
+// Derived query structs (evenio_macros::Query): used in place of the equivalent tuple for three registry queries, so
+// that the derive macro's init / new_arch_state / get are exercised with the same expected behaviour as the tuple.
+#[derive(Query)]
+pub struct DqPair<'a> {
+    pub a: &'a K0,
+    pub b: &'a K1,
+}
+impl Item for DqPair<'_> {
+    fn render(&self) -> String {
+        format!("({},{})", self.a.render(), self.b.render())
+    }
+}
+#[derive(Query)]
+pub struct DqTuple<'a>(pub &'a mut K0, pub Not<&'static K1>);
+impl Item for DqTuple<'_> {
+    fn render(&self) -> String {
+        format!("({},{})", self.0.render(), self.1.render())
+    }
+    fn bump(&mut self, d: u64) {
+        self.0.bump(d);
+    }
+}
+#[derive(Query)]
+pub struct DqMixed<'a> {
+    pub e: EntityId,
+    pub a: Option<&'a mut K0>,
+    pub h: Has<&'static K1>,
+}
+impl Item for DqMixed<'_> {
+    fn render(&self) -> String {
+        format!("({},{},{})", self.e.render(), self.a.render(), self.h.render())
+    }
+    fn bump(&mut self, d: u64) {
+        self.a.bump(d);
+    }
+}
+
 pub fn skey(i: u32, g: u32) -> String {
     format!("{i}v{g}")
 }
